@@ -4,6 +4,7 @@
   instantiates `H := MD5.md5`.
 -/
 import RV.Model.Wire
+import RV.Spec.Authenticator
 namespace RV
 
 abbrev Hash := Bytes → Bytes
@@ -100,4 +101,46 @@ def reqClass : Nat → ReqClass
   | _ => .never
 
 end Rfc
+/-! ### Datagram ↔ fields (the link between byte offsets and the field-level RFC specification
+    `RV.Rfc2865` of RV/Spec/Authenticator.lean; justified against `parse`, `marshal` and
+    `Rfc2865.serialize` in RV/Proofs/Auth.lean) -/
+
+/-- the fields of a datagram: Code = octet 0, Identifier = octet 1, Authenticator = octets 4..19,
+    Attributes = octets 20..Length-1 (Length = octets 2..3, big-endian).  Exactly what `parse` reads. -/
+def wireFields (w : Bytes) : Rfc2865.Fields :=
+  ⟨w.getD 0 0, w.getD 1 0, (w.drop 4).take 16, (w.take (lengthField w)).drop 20⟩
+
+/-- the octets beyond the Length field ("padding", RFC 2865 §3) -/
+def padding (w : Bytes) : Bytes := w.drop (lengthField w)
+
+/-! ### `New` reading from an entropy source -/
+
+/-- `New` on a source that can still yield the octets `src` (`crypto/rand.Read(buff[:])` with
+    `buff [17]byte` either fills the buffer or returns an error, and `New` panics on the error):
+    the packet and the unread rest of the source. -/
+def newFrom (src : Bytes) (code : Int) (secret : Bytes) : Res (Packet × Bytes) :=
+  if src.length < 17 then .fault
+  else .ok (newPacket (src.take 17) code secret, src.drop 17)
+
+/-- successive calls `New(code₀, secret₀)`, `New(code₁, secret₁)`, … on one source -/
+def newMany : List (Int × Bytes) → Bytes → Res (List Packet × Bytes)
+  | [], src => .ok ([], src)
+  | (c, s) :: calls, src =>
+    match newFrom src c s with
+    | .ok (p, rest) =>
+      match newMany calls rest with
+      | .ok (ps, r) => .ok (p :: ps, r)
+      | .err => .err
+      | .fault => .fault
+    | .err => .err
+    | .fault => .fault
+
+/-- packet number `k` of a stream of calls, read off the source directly: its 17 octets are the
+    stream positions `17 k … 17 k + 16` -/
+def newStream (src : Bytes) (k : Nat) (code : Int) (secret : Bytes) : Res Packet :=
+  match newFrom (src.drop (17 * k)) code secret with
+  | .ok (p, _) => .ok p
+  | .err => .err
+  | .fault => .fault
+
 end RV
